@@ -569,7 +569,8 @@ func (w *c15World) opHeal(c *c15Case) {
 // the server side of the current session goes away; the manager closes the pool and rebuilds
 func (w *c15World) opSessLoss(c *c15Case) {
 	old := w.pool().Session()
-	srv := w.serverOf(old)
+	var srv *Session
+	c15Wait(func() bool { srv = w.serverOf(old); return srv != nil }, 10*time.Second)
 	if srv == nil {
 		w.fatal = "no server session"
 		return
